@@ -19,6 +19,7 @@ type Options struct {
 	Vacuity   bool
 	Seed      int
 	Thorough  bool
+	GhostOnly bool // only ghost assertions are obligations (trusted function)
 }
 
 // effectiveClauses: a method's own clauses plus those of the interface contracts it implements.
@@ -216,6 +217,16 @@ func (w *World) verifyFunction(fn *ssa.Function, blk *Block, opts *Options) *Exe
 		}()
 		ex.execBlock(fr, fn.Blocks[0], run, nil)
 	}()
+	// a ghost assertion or loop-exit clause whose site no longer exists carries an obligation that can no longer be generated
+	for _, c := range clauses {
+		if (c.Kind == "before" || c.Kind == "after" || c.Kind == "loop-exit") && !c.hit {
+			where := fmt.Sprintf("loop %d", c.Loop)
+			if len(c.Names) > 0 {
+				where = c.Names[0]
+			}
+			ex.errorf("%s: %s clause %q: no such site (%s) on any executed path", blk.Name, c.Kind, c.Label, where)
+		}
+	}
 	return ex
 }
 
